@@ -105,6 +105,11 @@ func pseudo(src, dst netip.Addr, proto uint8, l4len int) []byte {
 	return b
 }
 
+// L4Checksum is the transport checksum (pseudo-header included) of l4, whose checksum field must be zero.
+func L4Checksum(src, dst netip.Addr, proto uint8, l4 []byte) uint16 {
+	return Checksum(pseudo(src, dst, proto, len(l4)), l4)
+}
+
 // Parse decodes an IP packet and checks every length and checksum it can.
 func Parse(b []byte) (*Packet, error) {
 	p := &Packet{Raw: b}
@@ -342,9 +347,9 @@ func FixIPv4Checksum(b []byte) {
 }
 
 // TCP option helpers
-func OptMSS(v uint16) []byte       { return []byte{2, 4, byte(v >> 8), byte(v)} }
-func OptSackPermitted() []byte     { return []byte{4, 2} }
-func OptNop() []byte               { return []byte{1} }
+func OptMSS(v uint16) []byte   { return []byte{2, 4, byte(v >> 8), byte(v)} }
+func OptSackPermitted() []byte { return []byte{4, 2} }
+func OptNop() []byte           { return []byte{1} }
 func OptTimestamps(val, ecr uint32) []byte {
 	b := make([]byte, 10)
 	b[0], b[1] = 8, 10
